@@ -4,8 +4,7 @@ import itertools
 PROPS_FILE = "Props_C18.v"
 RULE = ("engine c18: programs of 2-3 threads over 2-3 keys replayed on the real FrimMap under a chosen interleaving "
         "(every prefix schedule of bounded length for small program sets, random schedules for larger ones); a case is "
-        "non-trivial when at least one compare-and-swap of an rcu writer failed and was retried (token x>0) or an "
-        "iteration was overtaken by a writer; engine c18seq: random single-thread call sequences, non-trivial when a "
+        "non-trivial when at least one compare-and-swap of an rcu writer failed and was retried (token x>0); engine c18seq: random single-thread call sequences, non-trivial when a "
         "remove or get finds a value; distinct = distinct case text")
 TRUSTED_BASE = [
     "Coq 8.16.1 kernel (coqc; coqchk in thorough); no native_compute",
@@ -124,9 +123,10 @@ def classify(case, out):
         ks.append("lookup-or-remove-none")
     if any(t.startswith("[") for t in toks[:-2]):
         ks.append("iteration")
-    if " P" in case:
+    ops = [o.split()[2] for o in case.split(";") if o.startswith("p ")]
+    if "P" in ops:
         ks.append("replace")
-    if " T " in case:
+    if "T" in ops:
         ks.append("retain")
     return ks
 
@@ -145,11 +145,17 @@ def corpus():
 
 def gen_seq(rng, tier):
     n = 1500 if tier == "quick" else 30000
-    for _ in range(n):
+    for i in range(n):
         fresh = [10]
-        keys = [1, 2, 3] if rng.chance(60) else list(range(1, 12))
-        yield ";".join(op_text(rng, fresh, keys, [("I", 34), ("R", 20), ("G", 10), ("H", 6), ("L", 8), ("E", 8), ("T", 8), ("P", 6)])
-                       for _ in range(rng.range(1, 30)))
+        if i % 5 == 0:
+            # more than 8 entries: the SmallVec spills to the heap
+            keys = list(range(1, 16))
+            w = [("I", 60), ("R", 12), ("G", 8), ("H", 4), ("L", 6), ("E", 5), ("T", 2), ("P", 3)]
+            yield ";".join(op_text(rng, fresh, keys, w) for _ in range(rng.range(12, 40)))
+        else:
+            keys = [1, 2, 3] if rng.chance(60) else list(range(1, 12))
+            w = [("I", 34), ("R", 20), ("G", 10), ("H", 6), ("L", 8), ("E", 8), ("T", 8), ("P", 6)]
+            yield ";".join(op_text(rng, fresh, keys, w) for _ in range(rng.range(1, 30)))
 
 
 def nontrivial_seq(case, out):
@@ -159,11 +165,12 @@ def nontrivial_seq(case, out):
 def classify_seq(case, out):
     toks = out.split()
     ks = ["len<=8" if len(toks) <= 10 else "len<=20" if len(toks) <= 22 else "len>20"]
-    if any(t.startswith("l") and t[1:].isdigit() and int(t[1:]) > 8 for t in toks):
+    if any(t.startswith("l") and t[1:].isdigit() and int(t[1:]) > 8 for t in toks) or (toks and toks[-1].count(":") > 8):
         ks.append("more-than-8-entries(heap SmallVec)")
-    if " P" in case or case.startswith("P"):
+    ops = [o.split()[0] for o in case.split(";") if o.strip()]
+    if "P" in ops:
         ks.append("replace")
-    if "T " in case:
+    if "T" in ops:
         ks.append("retain")
     return ks
 
